@@ -164,6 +164,17 @@ func seenHas(n NodeObs, k key) bool {
 	return false
 }
 
+// withdrew reports whether agent m ever sent a withdrawal in this case (its
+// CIDR routes may then legitimately be absent elsewhere).
+func (c *Case) withdrew(m int) bool {
+	for _, op := range c.Ops {
+		if op.K == "withdraw" && op.A == m {
+			return true
+		}
+	}
+	return false
+}
+
 // baseMetric returns the metric the origin configured for a route (presence
 // routes are announced with 0).
 func (c *Case) baseMetric(origin, kind, id int) (int, bool) {
@@ -221,17 +232,18 @@ func MonitorC11(c *Case, o *Obs) []Finding {
 		if st.Result == 1 {
 			if s1, dup := firstProc[id]; dup {
 				// was the key absent from the node's seen cache in between?
+				// only time passing (TTL) or an eviction may remove the entry: find the step after which it was gone
 				expired := false
 				for j := s1; j < si; j++ {
 					if sn := o.Snap(j); sn != nil && !seenHas(sn[st.DelTo], k) {
-						expired = true
+						expired = c.Ops[j].K == "advance" || c.Ops[j].K == "forget"
 						break
 					}
 				}
 				if expired {
 					out = append(out, Finding{"reprocessed-after-seen-expiry", fmt.Sprintf("node %d processed (%d,%d) at step %d and again at step %d after the seen-cache entry had expired; %d frame(s) forwarded again", st.DelTo, k.origin, k.seq, s1, si, len(sends))})
 				} else {
-					out = append(out, Finding{"processed-twice", fmt.Sprintf("node %d processed (%d,%d) at steps %d and %d with the seen-cache entry in place", st.DelTo, k.origin, k.seq, s1, si)})
+					out = append(out, Finding{"processed-twice", fmt.Sprintf("node %d processed (%d,%d) at steps %d and %d although its seen-cache entry had not expired (it was still there, or vanished without time passing); %d frame(s) forwarded again", st.DelTo, k.origin, k.seq, s1, si, len(sends))})
 				}
 			} else {
 				firstProc[id] = si
@@ -370,6 +382,7 @@ func MonitorC12(c *Case, o *Obs) []Finding {
 			}
 		}
 	}
+	out = append(out, monitorReplayComplete(c, o)...)
 	// completeness: every node announced after the topology was final and the graph is connected. With hop limits
 	// that can cut the mesh the expectation is order-independent only on a tree (unique paths): there an agent must
 	// learn an origin exactly when every agent on the way forwards (distance < its limit) and it accepts itself
@@ -410,6 +423,9 @@ func MonitorC12(c *Case, o *Obs) []Finding {
 		for _, op := range c.Ops {
 			if op.K == "addlocal" && op.A == m && !seenKey[[2]int{op.Kind, op.ID}] {
 				seenKey[[2]int{op.Kind, op.ID}] = true
+				if op.Kind == KCidr && c.withdrew(m) {
+					continue
+				}
 				want = append(want, RouteObs{Kind: op.Kind, ID: op.ID})
 			}
 		}
@@ -527,6 +543,9 @@ func MonitorC14(c *Case, o *Obs) []Finding {
 				p := c.Ops[i2]
 				if p.K == "addlocal" && p.A == org && o.Steps[i2].Applied && !sk[[2]int{p.Kind, p.ID}] {
 					sk[[2]int{p.Kind, p.ID}] = true
+					if p.Kind == KCidr && c.withdrew(org) {
+						continue
+					}
 					want = append(want, RouteObs{Kind: p.Kind, ID: p.ID})
 				}
 			}
@@ -655,7 +674,7 @@ func monitorC14Accept(c *Case, o *Obs) []Finding {
 		perStepSends[m.Step] = append(perStepSends[m.Step], m)
 	}
 	for si, st := range o.Steps {
-		if c.Ops[si].K != "deliver" || !st.Applied || st.DelOrigin >= c.N {
+		if c.Ops[si].K != "deliver" || !st.Applied || st.DelOrigin >= c.N || st.DelWithdraw {
 			continue
 		}
 		n := st.DelTo
@@ -713,6 +732,73 @@ func monitorC14Accept(c *Case, o *Obs) []Finding {
 		for p := 0; p < c.N && adj != nil; p++ {
 			if adj[n][p] && p != st.DelFrom && p != n && !contains(st.DelSeenBy, p) && !got[p] {
 				out = append(out, Finding{"announcement-not-forwarded", fmt.Sprintf("step %d: node %d accepted the first copy of (%d,%d) (path %v, max_hops %d) but did not forward it to neighbour %d", si, n, st.DelOrigin, st.DelSeq, st.DelPath, l, p)})
+			}
+		}
+	}
+	return out
+}
+
+// monitorReplayComplete: a peer that connects learns the table from the
+// full-table replay. For a connect x-y, once the frames are delivered (no
+// topology change, cleanup, withdrawal or expiry in between), y must hold
+// every (kind, id, origin) that x held before the connect and could pass on
+// (not learned from y, y not on the path, within both hop limits), unless y
+// had already seen the advertisement the entry stems from.
+func monitorReplayComplete(c *Case, o *Obs) []Finding {
+	var out []Finding
+	if len(o.snaps) == 0 {
+		return nil
+	}
+	for _, op := range c.Ops {
+		if op.K == "forget" || (op.K == "advance" && op.D >= 100) {
+			return nil
+		}
+	}
+	for j, op := range c.Ops {
+		if op.K != "connect" || !o.Steps[j].Applied || j == 0 {
+			continue
+		}
+		q := -1
+		for t := j; t < len(c.Ops); t++ {
+			if t > j {
+				k := c.Ops[t].K
+				if k == "connect" || k == "disconnect" || k == "cleanup" || k == "withdraw" {
+					break
+				}
+			}
+			if o.Steps[t].InFlight == 0 {
+				q = t
+				break
+			}
+		}
+		if q < 0 {
+			continue
+		}
+		pre, post := o.Snap(j-1), o.Snap(q)
+		for _, xy := range [][2]int{{op.A, op.B}, {op.B, op.A}} {
+			x, y := xy[0], xy[1]
+			lx, ly := c.EffLimit(x), c.EffLimit(y)
+			for _, e := range pre[x].Entries {
+				if e.NextHop == y || e.Origin == y || contains(e.Path, y) {
+					continue
+				}
+				hops := len(e.Path) + 1
+				if (lx > 0 && hops > lx) || (ly > 0 && hops > ly) {
+					continue
+				}
+				if e.Origin != x && seenHas(pre[y], key{e.Origin, e.Seq}) {
+					continue
+				}
+				found := false
+				for _, f := range post[y].Entries {
+					if f.Kind == e.Kind && f.ID == e.ID && f.Origin == e.Origin {
+						found = true
+						break
+					}
+				}
+				if !found {
+					out = append(out, Finding{"replay-incomplete", fmt.Sprintf("step %d: %d connected to %d; %d held kind %d id %d of origin %d (sequence %d, path %v) but after the replay was delivered (step %d) %d holds nothing for it", j, y, x, x, e.Kind, e.ID, e.Origin, e.Seq, e.Path, q, y)})
+				}
 			}
 		}
 	}
